@@ -81,7 +81,7 @@ func TestVerifC19FS(t *testing.T) {
 	cases = append(cases,
 		c19FsCase{Op: []string{"Write"}, Pre: "none", File: "fifo-vanish", Content: c19RuleSets[0], ProcOK: true},  // C19-F4
 		c19FsCase{Op: []string{"Write"}, Pre: "other", File: "fifo-vanish", Content: c19RuleSets[0], ProcOK: true}, // C19-F4
-		c19FsCase{Op: []string{"Write"}, Pre: "other", File: "content", Content: "", ProcOK: true},                // empty = deleted
+		c19FsCase{Op: []string{"Write"}, Pre: "other", File: "content", Content: "", ProcOK: true},                 // empty = deleted
 		c19FsCase{Op: []string{"Write"}, Pre: "other", File: "content", Content: c19RuleSets[1][:40], ProcOK: true},
 		c19FsCase{Op: []string{"Write"}, Pre: "other", File: "content", Content: c19RuleSets[1], ProcOK: false},
 		c19FsCase{Op: []string{"Write"}, Pre: "same", File: "content", Content: c19RuleSets[1], ProcOK: true},
